@@ -40,15 +40,21 @@ func (c *Int) GetValue() int {
 }
 
 func (c *Int) GetMinValue() int {
-	return c.MinValue.(int)
+	// nil (no such bound declared) reads as the zero value
+	v, _ := c.MinValue.(int)
+	return v
 }
 
 func (c *Int) GetMaxValue() int {
-	return c.MaxValue.(int)
+	// nil (no such bound declared) reads as the zero value
+	v, _ := c.MaxValue.(int)
+	return v
 }
 
 func (c *Int) GetStepValue() int {
-	return c.StepValue.(int)
+	// nil (no such bound declared) reads as the zero value
+	v, _ := c.StepValue.(int)
+	return v
 }
 
 // OnValueRemoteGet calls fn when the value was read by a client.
